@@ -213,6 +213,43 @@ impl TrainDisp {
     }
 }
 
+/// Verification hook H1 (feature `nrel_altrios_verif`): read-only access to the private dispatch state,
+/// used only to inspect the snapshots recorded by `dispatch::verif_hook`.
+#[cfg(feature = "nrel_altrios_verif")]
+impl TrainDisp {
+    pub fn verif_est_times(&self) -> &[EstTime] {
+        &self.est_times
+    }
+    pub fn verif_disp_path(&self) -> &[DispNode] {
+        &self.disp_path
+    }
+    pub fn verif_link_idx_path(&self) -> &[LinkIdx] {
+        &self.link_idx_path
+    }
+    pub fn verif_div_nodes(&self) -> &[DivergeNode] {
+        &self.div_nodes
+    }
+    /// (disp_node_idx_fixed, disp_node_idx_free, disp_node_idx_front, disp_node_idx_back)
+    pub fn verif_node_idxs(&self) -> (usize, usize, usize, usize) {
+        (
+            self.disp_node_idx_fixed.idx(),
+            self.disp_node_idx_free.idx(),
+            self.disp_node_idx_front.idx(),
+            self.disp_node_idx_back.idx(),
+        )
+    }
+    /// (offset_fixed, offset_free, time_update, time_update_next, time_spacing)
+    pub fn verif_scalars(&self) -> (si::Length, si::Length, si::Time, si::Time, si::Time) {
+        (
+            self.offset_fixed,
+            self.offset_free,
+            self.time_update,
+            self.time_update_next,
+            self.time_spacing,
+        )
+    }
+}
+
 // TODO:  add dummy train
 #[cfg(test)]
 mod test_train_disp {
